@@ -106,7 +106,7 @@ def native_case(nodes, di, bi, a, b, C, acyclic):
     rec = {"nodes": [n.name for n in nodes], "di": [[u.name, v.name] for u, v in di], "bi": [[u.name, v.name] for u, v in bi], "a": a.name, "b": b.name, "C": [c.name for c in C], "acyclic": acyclic}
     try:
         s1 = bool(are_sigma_separated(g, a, b, conditions=set(C)))
-        s2 = bool(are_sigma_separated(g, b, a, conditions=set(C)))
+        s2 = bool(are_sigma_separated(g, b, a, conditions=list(C) if C else None))  # None = no conditions
     except Exception as e:  # noqa: BLE001
         rec["observed"] = f"raised {type(e).__name__}: {short(e, 100)}"
         rec["bad"] = True
